@@ -213,7 +213,8 @@ def get_unescaped_str(string: str, qm: str) -> str:
     for i in string:
         if i == qm:
             out.append(f"\\{qm}")
-        elif ord(i) > 255 and i.isprintable():
+        elif ord(i) > 127 and i.isprintable():
+            # (no escape: a backslash is not allowed in an f-string expr before python 3.12)
             out.append(i)
         else:
             out.append(ascii(i)[1:-1])
